@@ -324,7 +324,7 @@ impl Check for C16 {
         }
         let v = &sc.net.clients[n - 1];
         // the victim must be well behaved and have its own effective IP
-        if !v.spec.cuts.is_empty() || !v.wplan.is_empty() || v.spec.mute_after.is_some() || v.spec.script.is_some() || !v.spec.mutations.is_empty() || !matches!(v.spec.intent, 1 | 2) || !matches!(v.spec.enc, crate::client::EncVariant::Honest) || v.spec.ka_default != KaPolicy::Prompt || !v.spec.send_info || v.spec.close_after.is_some() {
+        if !v.spec.cuts.is_empty() || !v.wplan.is_empty() || v.spec.mute_after.is_some() || v.spec.script.is_some() || !v.spec.mutations.is_empty() || !matches!(v.spec.intent, 1 | 2) || !matches!(v.spec.enc, crate::client::EncVariant::Honest) || v.spec.ka_default != KaPolicy::Prompt || !v.spec.send_info || v.spec.close_after.is_some() || !v.spec.login_think_ns.is_empty() || v.spec.name != "Victim" {
             return RunReport::default();
         }
         if v.spec.preamble.is_some() != sc.net.cfg.proxy.is_some() {
